@@ -24,7 +24,8 @@ NT_FLOOR = 0.3
 
 vals = G.finite_floats(lo_exp=-20, hi_exp=20).filter(lambda x: x != 0)
 relerr = st.one_of(st.floats(1e-6, 0.45), st.sampled_from([0.01, 0.1, 0.25]),
-                   st.integers(-13, -6).map(lambda e: 10.0 ** e), st.sampled_from([1e-9, 5e-10, 1e-8, 2e-8]))
+                   st.integers(-13, -6).map(lambda e: 10.0 ** e), st.sampled_from([1e-9, 5e-10, 1e-8, 2e-8]),
+                   st.sampled_from([1.25, 1.5, 3.0]))      # poorly determined values: the error exceeds the value
 
 
 @st.composite
@@ -86,7 +87,9 @@ def conv_case(draw):
     u = draw(G.expr_of_dim(dim))
     w = draw(G.expr_of_dim(dim))
     a = draw(operand(allow_exact=False))
-    return {"kind": "conv", "u": u, "v": w, "a": a}
+    # the error may be set afterwards with the in-place setter, as a Python int (stays an int until the conversion)
+    int_abse = draw(st.sampled_from([None, None, None, 1, 5, 50]))
+    return {"kind": "conv", "u": u, "v": w, "a": a, "int_abse": int_abse}
 
 
 @st.composite
@@ -99,7 +102,8 @@ def qsum_case(draw):
     if draw(st.integers(0, 4)) == 0:
         # an operand that is exactly zero still carries its (absolute) uncertainty
         b = {"x": 0.0, "e": draw(st.sampled_from([1.0, 0.5, 2e-3]))}
-    return {"kind": "qsum", "op": draw(st.sampled_from(["+", "-"])), "u": u, "v": w, "a": a, "b": b}
+    return {"kind": "qsum", "op": draw(st.sampled_from(["+", "-"])), "u": u, "v": w, "a": a, "b": b,
+            "b_int_abse": draw(st.sampled_from([None, None, None, 1, 5, 50]))}
 
 
 @st.composite
@@ -116,10 +120,15 @@ def custom_conv_case(draw):
 def qprod_case(draw):
     dim = draw(st.sampled_from(G.DIMS))
     u = draw(G.expr_of_dim(dim))
-    w = draw(G.expr_of_dim(dim if draw(st.booleans()) else draw(st.sampled_from(G.DIMS))))
+    same = draw(st.booleans())
+    w = draw(G.expr_of_dim(dim if same else draw(st.sampled_from(G.DIMS))))
     a = draw(operand(allow_exact=False, positive=True, array=False))
     b = draw(operand(positive=True, array=False))
-    return {"kind": "qprod", "op": draw(st.sampled_from(["*", "/"])), "u": u, "v": w, "a": a, "b": b}
+    # 'to': a expressed in multiples of the (possibly uncertain) reference quantity b - the same quotient as a/b
+    op = draw(st.sampled_from(["*", "/", "to"] if same else ["*", "/"]))
+    if op == "to" and draw(st.booleans()):
+        a = dict(a, e=None)
+    return {"kind": "qprod", "op": op, "u": u, "v": w, "a": a, "b": b}
 
 
 def strategies(tier):
@@ -196,8 +205,12 @@ def check_mag(case, v):
         if np.all(xa > 0) and np.all(xb > 0):
             bound = xa * eb + xb * ea if op == "*" else ea / xb + xa * eb / xb ** 2
             if not _ge(err, bound, xa * xb if op == "*" else xa / xb):
-                return v.fail("first-order", f"{txt}: error {err!r} < first-order bound {bound!r}")
+                crossing = op == "/" and bool(np.any(eb >= xb))
+                return v.fail("first-order", f"{txt}: error {err!r} < first-order bound {bound!r}" +
+                              (f" [divisor interval reaches zero; reported_max={float(np.max(_np(err)))!r}]" if crossing else ""))
             v.label("first_order_checked")
+            if op == "/" and bool(np.any(eb >= xb)):
+                v.label("divisor_interval_reaches_zero")
     else:
         # one exact operand
         if op == "*":
@@ -285,6 +298,11 @@ def check_conv(case, v):
         return v.discard("float-range")
     a = case["a"]
     q = Quantity(_mk(a), tu)
+    if case.get("int_abse"):
+        q = Quantity(a["x"] if not isinstance(a["x"], list) else list(a["x"]), tu)
+        q.abse(int(case["int_abse"]))
+        a = {"x": a["x"], "e": float(case["int_abse"]) * R.factor_of_expression(q.units()) / fu}
+        v.label("int_error_by_setter")
     # Quantity(x,u) folds a dimensionless compound: the error must be folded with the same factor as the value
     if not _eq(_np(q.abse()) * R.factor_of_expression(q.units()), _err(a) * fu):
         return v.fail("constructor-error", f"Quantity({a['x']!r}+-{a['e']!r},{tu!r}) reports abse {q.abse()!r} {q.units()}: "
@@ -317,6 +335,11 @@ def check_qsum(case, v):
         return v.discard("float-range")
     a, b = case["a"], case["b"]
     qa, qb = Quantity(_mk(a), tu), Quantity(_mk(b), tv)
+    if case.get("b_int_abse"):
+        qb = Quantity(b["x"], tv)
+        qb.abse(int(case["b_int_abse"]))
+        b = {"x": b["x"], "e": case["b_int_abse"]}
+        v.label("int_error_by_setter")
     fa = R.factor_of_expression(qa.units())
     fb = R.factor_of_expression(qb.units())
     ea, eb = qa.abse(), qb.abse()
@@ -368,10 +391,31 @@ def check_qprod(case, v):
     a, b, op = case["a"], case["b"], case["op"]
     qa, qb = Quantity(_mk(a), tu), Quantity(_mk(b), tv)
     Ba, Bb = _np(a["x"]) * fu, _np(b["x"]) * fv
-    ea = _err(a) * fu
+    ea = None if a["e"] is None else _err(a) * fu
     eb = None if b["e"] is None else _err(b) * fv
-    r = qa * qb if op == "*" else qa / qb
     txt = f"Quantity({a['x']!r}+-{a['e']!r},{tu!r}) {op} Quantity({b['x']!r}+-{b['e']!r},{tv!r})"
+    if op == "to":
+        r = qa.to(qb)
+        err = r.abse()
+        if ea is None and eb is None:
+            if err is not None:
+                return v.fail("exact-not-exact", f"{txt}: error {err!r}")
+            return v.label("exact_operands")
+        if err is None:
+            return v.fail("error-lost", f"{txt}: result has no error")
+        if not _nonneg(err):
+            return v.fail("negative-error", f"{txt}: error {err!r}")
+        bound = (0 if ea is None else ea / Bb) + (0 if eb is None else Ba * eb / Bb ** 2)
+        if eb is None:
+            if not _eq(err, bound, 1e-10):
+                return v.fail("exact-factor", f"{txt}: error {err!r}, expected e/|k| = {bound!r}")
+        elif np.any(eb >= Bb):
+            v.label("divisor_interval_reaches_zero_not_compared")      # see known finding C08-K1
+        elif not _ge(err, bound * (1 - 1e-10), Ba / Bb):
+            return v.fail("first-order", f"{txt}: error {err!r} < first-order bound {bound!r} of the quotient")
+        v.nt(True)
+        return v.label("to_reference_quantity")
+    r = qa * qb if op == "*" else qa / qb
     err = r.abse()
     if err is None:
         return v.fail("error-lost", f"{txt}: result has no error")
@@ -383,6 +427,8 @@ def check_qprod(case, v):
         if not _eq(ebase, exp, 1e-10):
             return v.fail("exact-factor", f"{txt}: base error {ebase!r} ({err!r} {r.units()}), expected {exp!r}")
         v.label("qprod_exact")
+    elif op == "/" and np.any(eb >= Bb):
+        v.label("divisor_interval_reaches_zero_not_compared")          # see known finding C08-K1
     elif np.all(Ba > 0) and np.all(Bb > 0):
         bound = Ba * eb + Bb * ea if op == "*" else ea / Bb + Ba * eb / Bb ** 2
         if not _ge(ebase, bound * (1 - 1e-10), Ba * Bb if op == "*" else Ba / Bb):
@@ -390,6 +436,31 @@ def check_qprod(case, v):
         v.label("qprod_first_order")
     v.nt(fu != fv)
     v.label("qprod")
+
+
+def _k_divisor_reaches_zero(case, kind, detail):
+    """quotient of two uncertain positive values whose divisor is uncertain by >= 100 %: the library reports the larger
+    deviation of the two interval corners (a+da)/(b-db), (a-da)/(b+db), which can be below the first-order estimate.
+    Matches only that very number; any other error on such an input is a fresh violation."""
+    import re
+    if kind != "first-order" or case.get("kind") != "mag" or case.get("op") != "/":
+        return False
+    a, b = case["a"], case["b"]
+    if a["e"] is None or b["e"] is None:
+        return False
+    xa, xb, ea, eb = _np(a["x"]), _np(b["x"]), _err(a), _err(b)
+    if not (np.all(xa > 0) and np.all(xb > 0) and np.any(eb >= xb)):
+        return False
+    m = re.search(r"reported_max=([-+0-9.einfa]+)\]", detail)
+    if not m:
+        return False
+    with np.errstate(all="ignore"):
+        val = xa / xb
+        corner = float(np.max([np.abs((xa + ea) / (xb - eb) - val), np.abs((xa - ea) / (xb + eb) - val)]))
+    return close(float(m.group(1)), corner, 1e-12, 0.0)
+
+
+KNOWN = {"C08-K1": _k_divisor_reaches_zero}
 
 
 def check(case):
